@@ -27,6 +27,7 @@ class Extract:
         self.cellalias = []     # (name, path, field)
         self.tracing = False
         self.loop_index = 0
+        self.stamps = []            # names (fields / locals) of StabilisationNum type: rule R4s
         self.loop_containing = None   # regex: the innermost loop whose header+body matches (instead of an ordinal)
         self.panics = 'obligation'
         self.cfg = 'debug'
@@ -164,6 +165,8 @@ def parse(template_text):
                             ex.anchor = v.strip('`')
                         elif k == 'params':
                             ex.params = v.strip('`')
+                        elif k == 'stamps':
+                            ex.stamps = [x.strip() for x in v.split(',') if x.strip()]
                         elif k == 'loop_index':
                             ex.loop_index = int(v)
                         elif k == 'loop_containing':
@@ -283,6 +286,7 @@ def _expand_variants(segs):
     return out
 
 
+_inline_all = [False]
 _inline_allow = set()     # helper names the verifier reported as unknown on the first attempt (R3h is applied to these only)
 _known_fns = set()        # every fn the unit has text for (stubs, extracts): calls of other same-file helpers are inlined (R3h)
 _files = {}
@@ -299,8 +303,27 @@ def read_repo(rel):
     return _files[rel]
 
 
-def _apply_rules(ex, text, fired):
+def _apply_rules(ex, text, fired, skip_handles=False):
     for (label, is_re, pat, rep, cnt, anyc) in ex.rules:
+        if label == 'R5h' and skip_handles:
+            continue
+        if label == 'R5h':
+            # handle threading: the statement that re-derives a handle (group 1 = the local's name) is dropped and the
+            # local is renamed to the parameter that carries the handle in the `as:` signature
+            mm = mask(text)
+            hits = list(re.finditer(pat, mm))
+            if len(hits) != (cnt if cnt is not None else len(hits)) or not hits:
+                if anyc:
+                    fired.append('%s:%s x0' % (label, pat[:40]))
+                    continue
+                raise AnchorLost("rewrite '%s': expected %s match(es), found %d" % (pat, cnt, len(hits)))
+            for h in reversed(hits):
+                name = text[h.start(1):h.end(1)]
+                text = text[:h.start()] + text[h.end():]
+                if name != rep:
+                    text = ''.join(rules._sub_ident(text, mask(text), name, rep))
+            fired.append('%s:%s x%d' % (label, pat[:40], len(hits)))
+            continue
         if label == 'R8v':
             before, after = rep.split('\x00')
             text, n = rules.wrap_calls(text, pat, before, after)
@@ -417,6 +440,20 @@ def expand_extract(ex, canary=False):
                 if re.search(ex.loop_containing, bm[kw_:lbc_ + 1]):
                     cands.append((lbc_ - kw_, kw_, lbo_))
             if not cands:
+                # the loop (or the part of its body the anchor names) may have been moved into a private helper:
+                # splice the same-file helpers in (rule R3h) and look again
+                body2, inl = rules.r3_inline_helpers(body, src, _known_fns, ex.name)
+                if inl:
+                    body = body2
+                    bm = mask(body)
+                    lps = rsrc.loops(body)
+                    for (kw_, lbo_) in lps:
+                        lbc_ = rsrc.match_close(bm, lbo_)
+                        if re.search(ex.loop_containing, bm[kw_:lbc_ + 1]):
+                            cands.append((lbc_ - kw_, kw_, lbo_))
+                    if cands:
+                        fired.append('R3h helper(s) inlined to find the loop: %s' % ', '.join(inl))
+            if not cands:
                 raise AnchorLost('%s: no loop of fn %s contains `%s`' % (ex.id, ex.name, ex.loop_containing))
             _, kw, lbo = min(cands)
         else:
@@ -450,7 +487,7 @@ def expand_extract(ex, canary=False):
             last = mo_c.end()
         out.append(inner[last:])
         body = '{ let %s = vx_item; %s }' % (pat, ''.join(out))
-        orig = src[loc['body_open'] + kw:loc['body_open'] + lbc + 1]
+        orig = body[kw:lbc + 1]
     if ex.kind == 'fn' and ex.as_sig:
         # R7p: the contract is written over the parameter names of the `as:` signature; if the real signature names a
         # parameter differently (a rename), the real name is bound to the contract's by position
@@ -478,9 +515,10 @@ def expand_extract(ex, canary=False):
             if pairs:
                 body = '{ let (%s,) = (%s,); %s }' % (', '.join(r_ for r_, _ in pairs), ', '.join(a_ for _, a_ in pairs), body)
                 fired.append('R7p parameters bound by position: %s' % ', '.join('%s := %s' % pr for pr in pairs))
-    if _inline_allow and ex.kind in ('fn', 'loopbody'):
-        # on demand only (unit.verify retries with the names the verifier could not resolve)
-        body, inl = rules.r3_inline_helpers(body, src, _known_fns - _inline_allow, ex.name, only=_inline_allow)
+    if (_inline_allow or _inline_all[0]) and ex.kind in ('fn', 'loopbody'):
+        # on demand only (unit.verify retries with the names the verifier could not resolve, or - after an anchor of a
+        # rewrite rule was lost - with every same-file helper the unit has no text for)
+        body, inl = rules.r3_inline_helpers(body, src, _known_fns - _inline_allow, ex.name, only=(None if _inline_all[0] else _inline_allow))
         if inl:
             fired.append('R3h helper(s) inlined: %s' % ', '.join(inl))
     n_loops_orig = len(rsrc.loops(body))
@@ -498,6 +536,13 @@ def expand_extract(ex, canary=False):
     text, n = rules.r2_tracing(text)
     if n or ex.tracing:
         fired.append('R2 tracing x%d' % n)
+    # handle renames (R5h) come first: the cell erasure below is keyed on the handle's name
+    h_rules = [r for r in ex.rules if r[0] == 'R5h']
+    if h_rules:
+        import copy as _copy
+        ex_h = _copy.copy(ex)
+        ex_h.rules = h_rules
+        text = _apply_rules(ex_h, text, fired)
     if ex.cells:
         text, n = rules.r5_cells(text, ex.cells)
         fired.append('R5 cells(%s) x%d' % (','.join(ex.cells), n))
@@ -532,7 +577,10 @@ def expand_extract(ex, canary=False):
     text, n = rules.r7_closure_tuple_param(text)
     if n:
         fired.append('R7c closure tuple parameter x%d' % n)
-    text = _apply_rules(ex, text, fired)
+    if ex.stamps:
+        text, n = rules.r4_stamp_compare(text, ex.stamps)
+        fired.append('R4s stamp comparison x%d' % n)
+    text = _apply_rules(ex, text, fired, skip_handles=True)
     if ex.cut_after:
         # R1c prefix: keep the statements up to and including the one containing the anchor; the remainder of the body
         # is explicitly not under contract and is represented by a call that returns an arbitrary value.
